@@ -91,8 +91,8 @@ class Worker(metaclass=SupportClassPropertiesMeta):
             self._started = True
             self._dead = True # should be set to False by the derived class, after a child is actually created
             self._start()
-            if not self._dead and not _is_restart:
-                Worker.register_child(self)
+            if not self._dead:
+                Worker.register_child(self) # a restarted worker may have been dropped from the registry while it was dead
         else:
             self._started = False
             self._result = (True, None)
@@ -114,7 +114,8 @@ class Worker(metaclass=SupportClassPropertiesMeta):
     @staticmethod
     def register_child(child):
         with Worker._children_lock:
-            Worker._active_children.append(child)
+            if not any(c is child for c in Worker._active_children):
+                Worker._active_children.append(child)
 
     @classmethod
     def create(cls, worker_type, *args, **kwargs):
